@@ -278,7 +278,8 @@ def big_layouts(ctx):
 
 def _big_job(args):
     """One index, one removal order, a few queries after every removal."""
-    paths, bins, reverse, order_kind = args
+    paths, bins, reverse, order_kind = args[:4]
+    near_ends = len(args) > 4 and args[4]
     spatial_grid = _lib()
     part = core.Part()
     n_paths = len(paths)
@@ -292,12 +293,20 @@ def _big_job(args):
         part.violation("conditioning", COND_DESC + str(exc), {"kind": "conditioning"})
         return part
     spatial_grid.Index([[list(a), list(b)] for a, b in DECOY_PATHS], 3, True)
-    index = spatial_grid.Index([[list(p[0]), list(p[1])] for p in paths], bins, reverse)
-    end_cells = [(ident, pt, cell_of(index, pt)) for ident, pt in ends_of(paths, reverse)]
+    try:
+        index = spatial_grid.Index([[list(p[0]), list(p[1])] for p in paths], bins, reverse)
+        end_cells = [(ident, pt, cell_of(index, pt)) for ident, pt in ends_of(paths, reverse)]
+    except Exception as exc:                # pylint: disable=broad-except
+        part.violation(f"build:big:{n_paths}:{bins}:{reverse}",
+                       f"{desc} could not be built: {type(exc).__name__}: {exc}",
+                       _case(paths, bins, reverse, [], None))
+        return part
     xs = [p[0][0] for p in paths] + [p[1][0] for p in paths]
     ys = [p[0][1] for p in paths] + [p[1][1] for p in paths]
     queries = [(min(xs), min(ys)), (max(xs), max(ys)), ((min(xs) + max(xs)) / 2, (min(ys) + max(ys)) / 2),
                (min(xs) - 1, max(ys) + 1), (max(xs) / 3, max(ys) / 1.5), (max(xs) + 5, min(ys))]
+    if near_ends:
+        queries += [(pt[0] + 0.5, pt[1]) for _ident, pt in ends_of(paths, reverse)][:48]
     removed = set()
     for depth in range(n_paths + 1):
         for query in queries:
@@ -432,6 +441,16 @@ def run(ctx):
     big_jobs = [(paths, bins, reverse, kind) for paths in big_layouts(ctx)
                 for bins in (3, 6, 10, 13) for reverse in (False, True)
                 for kind in ("up", "down", "stride")]
+    # very fine grids (hundreds of cells per side: a plot of thousands of short strokes) on a
+    # wide flat document and on a square one - cell numbers of five and six digits, any cap or
+    # table sized for "reasonable" grids; queried next to every end
+    banner = tuple(((100.0 * i, 5.0 + (i % 2)), (100.0 * i + 30, 2.0 + (i % 3) * 3)) for i in range(11))
+    square = tuple((((i * 37) % 100 * 1.0, (i * 11) % 100 * 1.0), ((i * 13) % 100 * 1.0, (i * 29) % 100 * 1.0))
+                   for i in range(12))
+    for layout in (banner, square):
+        for bins in (100, 256, 257, 320, 324, 400) + ((640,) if ctx.thorough else ()):
+            for reverse in (False, True):
+                big_jobs.append((layout, bins, reverse, "stride", True))
     part.merge(core.fan_out(ctx, _big_job, big_jobs))
     cnt = part.counters
     coverage = {
